@@ -211,6 +211,30 @@ Qed.
 
 End RestT.
 
+(* ---- Tree.InorderAfter: `return func(yield func(T) bool) { t.root.inorderAfter(key, t.compare, yield) }`.
+   The translator uncurries a function whose body is one returned function literal: the generated
+   Tree_InorderAfter takes the key AND the iterator's yield (a state-threading callback); calling
+   the iterator the method returns is running that body. ---- *)
+Section AfterT.
+Context {T St : Type}.
+Variable cmp : T -> T -> Z.
+Variable g : St -> T -> St * bool.
+Notation tree := (SM.tree T).
+Notation heap := (list (G.node T)).
+
+Theorem C01_tree_inorderAfter_is_source : forall (h : heap) (root : option nat) (t : tree) (key : T) (s : St) (fuel : nat),
+  repr h root t -> (fuel >= depth t + 2)%nat ->
+  exists r, SM.inorder_after cmp g key t s = SM.Ok r /\
+            G.Tree_InorderAfter root cmp key (gf g) s h fuel = Ok (fst r).
+Proof.
+  intros h root t key s fuel R Hf. unfold G.Tree_InorderAfter.
+  destruct (C01_inorderAfter_is_source cmp g h root t key s fuel R Hf) as [r [E1 E2]].
+  exists r. split; [exact E1|]. rewrite E2. destruct r as [s' ok]. reflexivity.
+Qed.
+
+End AfterT.
+
+Print Assumptions C01_tree_inorderAfter_is_source.
 Print Assumptions C03_tree_root_is_source.
 Print Assumptions C03_tree_cursor_is_source.
 Print Assumptions C03_cursor_clone_is_source.
